@@ -169,6 +169,7 @@ def run(ctx):
     rp = Replay()
     npaths, chosen = entry_runs(ctx, q, S, rp, only_special=False)
     lookup_contract(ctx, rp, entries)
+    decoder_contract(ctx, rp)
     mask_parameter_bits(ctx, S, q, rp)
     enum_parameter_values(ctx, S, q, rp)
     import c10
@@ -515,6 +516,20 @@ def replay(S, rp, e, r, off, model, role):
 
 def le(w):
     return "".join("%02x" % ((w >> (8 * i)) & 0xff) for i in range(4))
+
+
+def decoder_contract(ctx, rp):
+    """The symbolic runs replace the decoder's raw requests (`word`, `bit64`, `string`, limits) by their contract, which C11 decides
+    with CBMC. Validation here: the same scenario functions (one request from an arbitrary reachable state, post-conditions
+    checked) are run natively on structured pseudo-random states; a concrete violating state is reported."""
+    for scen in ("dec_word", "dec_words", "dec_bit64", "dec_limit", "dec_typed", "dec_string_small"):
+        found = kani.native_sample(rp, scen, ctx.seed, n=3000)
+        if found:
+            raw, real, role, what = found
+            ctx.ob("decoder-contract/%s" % scen, False, what)
+            ctx.violation("parser/decoder-contract/%s" % role, what + " | native sampling of the decoder scenario", {"cmd": "scenario %s %s" % (scen, raw.hex()), "real": real})
+            return
+    ctx.ob("decoder-contract/6-scenarios-x-3000-states", True)
 
 
 def lookup_contract(ctx, rp, entries):
